@@ -4,11 +4,17 @@ package main
 // (property C01).  One operation line is one scenario (see lean/Driver/E2E.lean for the token
 // syntax):
 //
-//	new <once|stream:k> <direct|agent> <queries> T=<name>:<request>:<kind>... <i>U<noti> <i>S <i>E <i>N <i>V<fq config>
+//	new <once|stream:k> <direct|agent> <queries> T=<name>:<request>:<kind>... <i>U<noti> <i>S <i>E <i>N <i>V<fq config> <i>R <i>Z
 //
-// What is real here: manager.handleGNMIUpdate (run mode `direct`, through the add-only seam
-// go/pkg_manager/verif_rx.go) or the whole manager.Manager + connection.Manager dialling real
-// testing/fake/gnmi agents over loopback TCP (run mode `agent`); cache.Cache; subscribe.Server
+// <i>R / <i>Z: the session of target i ends here (R: cut with an error status; Z: the target ends the
+// stream cleanly, the collector's Recv returns io.EOF) and the manager subscribes again; the items
+// of i that follow are its next session.
+//
+// What is real here: manager.handleUpdates (run mode `direct`: the receive loop of every session —
+// Connect, handleGNMIUpdate per response, Reset when Recv fails — on a scripted stream, through the
+// add-only seam go/pkg_manager/verif_session.go; monitor's ConnectError is re-stated) or the whole
+// manager.Manager + connection.Manager dialling real testing/fake/gnmi agents or a scripted gNMI
+// server (sessions, clean / abrupt ends) over loopback TCP (run mode `agent`); cache.Cache; subscribe.Server
 // registered on a real gRPC server on a loopback listener; client.CacheClient with the gNMI
 // transport (defaultRecv, noti, ToScalar); Leaves().
 //
@@ -26,6 +32,7 @@ import (
 	"encoding/json"
 	"errors"
 	"fmt"
+	"io"
 	"math"
 	"math/rand"
 	"net"
@@ -44,7 +51,10 @@ import (
 	"github.com/openconfig/gnmi/subscribe"
 	fgnmi "github.com/openconfig/gnmi/testing/fake/gnmi"
 	"google.golang.org/grpc"
+	"google.golang.org/grpc/codes"
 	"google.golang.org/grpc/credentials/insecure"
+	"google.golang.org/grpc/metadata"
+	"google.golang.org/grpc/status"
 	"google.golang.org/protobuf/proto"
 
 	pb "github.com/openconfig/gnmi/proto/gnmi"
@@ -66,7 +76,7 @@ type e2eDecl struct{ name, req, kind string }
 
 type e2eItem struct {
 	t    int
-	kind byte // U S E N V
+	kind byte // U S E N V | R Z (session end: abrupt / clean)
 	noti gNoti
 	vals string
 }
@@ -113,7 +123,7 @@ func e2eParse(args []string) (*e2eScenario, error) {
 			it.noti = parseNotiToken(tok[2:])
 		case 'V':
 			it.vals = tok[2:]
-		case 'S', 'E', 'N':
+		case 'S', 'E', 'N', 'R', 'Z':
 		default:
 			continue
 		}
@@ -184,6 +194,30 @@ func (sc *e2eScenario) itemsOf(t int) []e2eItem {
 		}
 	}
 	return out
+}
+
+// sessionsOf splits target t's items at its session ends: the responses of every session and how
+// it ends ('R', 'Z'; 0 = the last session, which stays up).
+func (sc *e2eScenario) sessionsOf(t int) (sess [][]e2eItem, ends []byte) {
+	var cur []e2eItem
+	for _, it := range sc.itemsOf(t) {
+		if it.kind == 'R' || it.kind == 'Z' {
+			sess, ends = append(sess, cur), append(ends, it.kind)
+			cur = nil
+			continue
+		}
+		cur = append(cur, it)
+	}
+	return append(sess, cur), append(ends, 0)
+}
+
+func (sc *e2eScenario) restarts(t int) bool {
+	for _, it := range sc.items {
+		if it.t == t && (it.kind == 'R' || it.kind == 'Z') {
+			return true
+		}
+	}
+	return false
 }
 
 // fakeConfig builds the fake.Config of a `fake` (fixed responses) or `values` (generator) target.
@@ -507,6 +541,81 @@ func e2eFinishAll(cls []*e2eClient, once bool) string {
 
 // ---------------------------------------------------------------- run mode `direct`
 
+// e2eScriptStream is the gpb.GNMI_SubscribeClient handleUpdates reads one session from: every Recv
+// first reports that the receive loop is idle (the previous response is completely handled), then
+// waits for what the scenario delivers next.
+type e2eRecv struct {
+	resp *pb.SubscribeResponse
+	err  error
+}
+
+type e2eScriptStream struct {
+	ctx  context.Context
+	in   chan e2eRecv
+	idle chan struct{}
+}
+
+func (s *e2eScriptStream) Recv() (*pb.SubscribeResponse, error) {
+	s.idle <- struct{}{}
+	r := <-s.in
+	return r.resp, r.err
+}
+func (s *e2eScriptStream) Send(*pb.SubscribeRequest) error { return nil }
+func (s *e2eScriptStream) Header() (metadata.MD, error)    { return nil, nil }
+func (s *e2eScriptStream) Trailer() metadata.MD            { return nil }
+func (s *e2eScriptStream) CloseSend() error                { return nil }
+func (s *e2eScriptStream) Context() context.Context        { return s.ctx }
+func (s *e2eScriptStream) SendMsg(interface{}) error       { return nil }
+func (s *e2eScriptStream) RecvMsg(interface{}) error       { return errors.New("unused") }
+
+// e2eSession is one run of the real receive loop (manager.handleUpdates) for one target.
+type e2eSession struct {
+	st       *e2eScriptStream
+	done     chan error
+	panicked chan interface{}
+}
+
+func (w *e2eWiring) startSession(name string) *e2eSession {
+	s := &e2eSession{st: &e2eScriptStream{ctx: context.Background(), in: make(chan e2eRecv, 1), idle: make(chan struct{})},
+		done: make(chan error, 1), panicked: make(chan interface{}, 1)}
+	go func() {
+		defer func() {
+			if r := recover(); r != nil {
+				s.panicked <- r
+			}
+		}()
+		s.done <- w.m.VerifHandleUpdates(s.st.ctx, name, s.st)
+	}()
+	s.waitIdle()
+	return s
+}
+
+// waitIdle: the receive loop is back in Recv (a Go panic inside it is re-raised here, where the
+// caller of Run turns it into the observation `panic`).
+func (s *e2eSession) waitIdle() {
+	select {
+	case <-s.st.idle:
+	case r := <-s.panicked:
+		panic(r)
+	}
+}
+
+func (s *e2eSession) push(resp *pb.SubscribeResponse) {
+	s.st.in <- e2eRecv{resp: resp}
+	s.waitIdle()
+}
+
+// end makes Recv fail with err and returns what handleUpdates returned.
+func (s *e2eSession) end(err error) error {
+	s.st.in <- e2eRecv{err: err}
+	select {
+	case e := <-s.done:
+		return e
+	case r := <-s.panicked:
+		panic(r)
+	}
+}
+
 func e2eRunDirect(sc *e2eScenario) string {
 	w, err := e2eNewWiring(sc, e2eNoConn{})
 	if err != nil {
@@ -514,14 +623,34 @@ func e2eRunDirect(sc *e2eScenario) string {
 	}
 	defer w.close()
 	var pool *pbPool // every response is its own message, as when it comes off a gRPC stream
-	connected := map[int]bool{}
+	sessions := map[int]*e2eSession{}
+	defer func() { // after the observation: let the receive loops return
+		for _, s := range sessions {
+			select {
+			case s.st.in <- e2eRecv{err: errors.New("scenario over")}:
+			default:
+			}
+		}
+	}()
 	apply := func(it e2eItem) {
 		name := sc.decls[it.t].name
-		if !connected[it.t] { // handleUpdates: m.connect(ta.name) before the first response is handled
-			connected[it.t] = true
-			w.c.Connect(name)
+		if sessions[it.t] == nil { // retryMonitor -> monitor -> subscribe -> handleUpdates
+			sessions[it.t] = w.startSession(name)
 		}
-		w.m.VerifHandleGNMIUpdate(name, e2eResponse(it, pool))
+		switch it.kind {
+		case 'R', 'Z':
+			cause := errors.New("rpc error: code = Unavailable desc = cut")
+			if it.kind == 'Z' {
+				cause = io.EOF // the target's handler returned nil
+			}
+			err := sessions[it.t].end(cause) // handleUpdates: m.reset(name) when Recv fails
+			delete(sessions, it.t)
+			if err != nil { // subscribe wraps the error; monitor's deferred m.connectError(name, err)
+				w.c.ConnectError(name, fmt.Errorf("stream failed for target %q: %v", name, err))
+			}
+		default:
+			sessions[it.t].push(e2eResponse(it, pool))
+		}
 	}
 	var cls []*e2eClient
 	for i, it := range sc.items {
@@ -568,19 +697,36 @@ func e2eRunDirect(sc *e2eScenario) string {
 
 // ---------------------------------------------------------------- run mode `agent`
 
-// e2eRawServer streams a fixed list of responses verbatim and then holds the stream open.
+// e2eRawServer is a scripted gNMI target: Subscribe RPC number j streams the responses of session j
+// verbatim and then ends as the scenario says — the handler returns nil (`Z`: the collector's Recv
+// returns io.EOF), returns an error status (`R`), or holds the stream open (last session).
 type e2eRawServer struct {
 	pb.UnimplementedGNMIServer
-	resps []*pb.SubscribeResponse
+	mu       sync.Mutex
+	next     int
+	sessions [][]*pb.SubscribeResponse
+	ends     []byte
 }
 
 func (s *e2eRawServer) Subscribe(stream pb.GNMI_SubscribeServer) error {
 	if _, err := stream.Recv(); err != nil {
 		return err
 	}
-	for _, r := range s.resps {
-		if err := stream.Send(proto.Clone(r).(*pb.SubscribeResponse)); err != nil {
-			return err
+	s.mu.Lock()
+	j := s.next
+	s.next++
+	s.mu.Unlock()
+	if j < len(s.sessions) {
+		for _, r := range s.sessions[j] {
+			if err := stream.Send(proto.Clone(r).(*pb.SubscribeResponse)); err != nil {
+				return err
+			}
+		}
+		switch s.ends[j] {
+		case 'Z':
+			return nil
+		case 'R':
+			return status.Error(codes.Unavailable, "cut")
 		}
 	}
 	<-stream.Context().Done()
@@ -601,9 +747,15 @@ func (sc *e2eScenario) startAgent(t int) (*e2eAgent, error) {
 		}
 		pool := newPool()
 		rs := &e2eRawServer{}
-		for _, it := range sc.itemsOf(t) {
-			rs.resps = append(rs.resps, e2eResponse(it, pool))
+		sess, ends := sc.sessionsOf(t)
+		for _, items := range sess {
+			var resps []*pb.SubscribeResponse
+			for _, it := range items {
+				resps = append(resps, e2eResponse(it, pool))
+			}
+			rs.sessions = append(rs.sessions, resps)
 		}
+		rs.ends = ends
 		gs := grpc.NewServer()
 		pb.RegisterGNMIServer(gs, rs)
 		go gs.Serve(lis)
@@ -622,6 +774,14 @@ func e2eRequest() *pb.SubscribeRequest {
 }
 
 func e2eRunAgent(sc *e2eScenario) string {
+	for t, d := range sc.decls {
+		if d.kind != "raw" && sc.restarts(t) {
+			return "bad-op" // only the scripted server can end a session and stream another one
+		}
+	}
+	oldBase, oldMax := manager.RetryBaseDelay, manager.RetryMaxDelay
+	manager.RetryBaseDelay, manager.RetryMaxDelay = 2*time.Millisecond, 5*time.Millisecond // resubscribe at once
+	defer func() { manager.RetryBaseDelay, manager.RetryMaxDelay = oldBase, oldMax }()
 	cm, err := connection.NewManager(grpc.WithTransportCredentials(insecure.NewCredentials()), grpc.WithBlock())
 	if err != nil {
 		return "setup-failed"
@@ -729,6 +889,9 @@ func e2eExportScenario(sc *e2eScenario) string {
 		}
 	}
 	for t, d := range sc.decls {
+		if sc.restarts(t) {
+			return "export-failed" // the process-level driver's targets serve one session
+		}
 		et := e2eExportTarget{Name: d.name, Request: d.req, Kind: d.kind}
 		et.MarkerTS, et.HasMarker = sc.markerTS(t)
 		if d.kind == "raw" {
@@ -1149,6 +1312,29 @@ func e2eGenScenario(r *rand.Rand, run string) string {
 		if r.Intn(2) == 0 {
 			g.items = append(g.items, e2eItem{t: t, kind: 'S'})
 		}
+		// session ends (cut / closed cleanly by the target) and restarts: the target comes back with
+		// fewer leaves, possibly with its clock started over; sessions may be empty
+		if !proc && r.Intn(3) == 0 {
+			if decls[t].kind == "fake" {
+				decls[t].kind = "raw" // the scripted server can end a session and stream another one
+			}
+			for j, nr := 0, 1+r.Intn(2); j < nr; j++ {
+				g.items = append(g.items, e2eItem{t: t, kind: "RZ"[r.Intn(2)]})
+				if len(g.pool) > 1 {
+					r.Shuffle(len(g.pool), func(i, j int) { g.pool[i], g.pool[j] = g.pool[j], g.pool[i] })
+					g.pool = g.pool[:1+r.Intn(len(g.pool)-1)]
+				}
+				if r.Intn(2) == 0 {
+					g.ts = 100 + int64(r.Intn(5))
+				}
+				for i, m := 0, r.Intn(5); i < m; i++ {
+					g.items = append(g.items, g.genNoti(r, t, stream))
+				}
+				if r.Intn(3) == 0 {
+					g.items = append(g.items, e2eItem{t: t, kind: 'S'})
+				}
+			}
+		}
 		g.ts += 3
 		g.items = append(g.items, e2eMarkerItem(t, g.name, qc.origin, qc.pre, g.ts))
 	}
@@ -1242,7 +1428,38 @@ func (c *e2eComp) Exhaustive(tier string) [][]string {
 			e2eMarkerItem(0, "dev1", "openconfig", nil, 20),
 		},
 	}
+	// session restarts: the target ends its stream cleanly (Z) or is cut (R) and comes back with a
+	// smaller state (a/c gone), its clock started over; then once more with nothing but the marker
+	ac := gPath{elem: []gElem{e2eEl("a"), e2eEl("c")}}
+	for _, end := range []byte{'Z', 'R'} {
+		streams = append(streams, []e2eItem{
+			mk(10, gPath{isNil: true}, []gUpd{{path: ab, val: iv(1)}}, nil),
+			mk(11, gPath{}, []gUpd{{path: ac, val: iv(2)}}, nil),
+			{t: 0, kind: 'S'},
+			{t: 0, kind: end},
+			mk(5, gPath{}, []gUpd{{path: ab, val: iv(3)}}, nil),
+			e2eMarkerItem(0, "dev1", "openconfig", nil, 20),
+		})
+	}
+	streams = append(streams, []e2eItem{
+		mk(10, gPath{origin: "oc2"}, []gUpd{{path: ab, val: iv(1)}}, nil),
+		{t: 0, kind: 'Z'},
+		{t: 0, kind: 'R'}, // a session without a single response
+		mk(10, gPath{}, []gUpd{{path: ac, val: iv(2)}}, nil),
+		{t: 0, kind: 'Z'},
+		e2eMarkerItem(0, "dev1", "openconfig", nil, 20),
+	})
 	var out [][]string
+	// the same through the real manager.Manager and a scripted gNMI server
+	for _, st := range streams[3:] {
+		for _, m := range []string{"once", "stream:0"} {
+			toks := []string{"new", m, "agent", ".", "T=dev1:r1:raw"}
+			for _, it := range st {
+				toks = append(toks, e2eRenderItem(it))
+			}
+			out = append(out, []string{strings.Join(toks, " ")})
+		}
+	}
 	for _, st := range streams {
 		for _, q := range []string{".", "/openconfig", "/*"} {
 			modes := []string{"once"}
